@@ -11,7 +11,7 @@ package traversal
 
 // The data-structure invariant of a running lookup, established by Start and kept by every critical section of op.mu:
 // the callbacks are set, the containers exist, and every contact of the frontier passed the node filter.
-//@ spec def opinv(op *Operation) bool = op != nil && op.queried != nil && op.unqueried != nil && op.input.NodeFilter != nil && op.input.DataFilter != nil && op.input.DoQuery != nil && op.closest.inner != nil && op.closest.k >= 1 && 0 <= op.outstanding && (op.outstanding <= op.input.Alpha || op.outstanding == 0) && (forall y types.AddrMaybeId :: has(op.unqueried, y) ==> nodeok(op.input.NodeFilter, y))
+//@ spec def opinv(op *Operation) bool = op != nil && op.queried != nil && op.unqueried != nil && op.input.NodeFilter != nil && op.input.DataFilter != nil && op.input.DoQuery != nil && op.closest.inner != nil && op.closest.k >= 1 && 0 <= op.outstanding && (op.outstanding <= op.input.Alpha || op.outstanding == 0) && (forall y types.AddrMaybeId :: has(op.unqueried, y) ==> nodeok(op.input.NodeFilter, y)) && (forall c krpc.NodeInfoAddrPort :: kmem(op.closest, c) ==> dataok(op.input.DataFilter, kdata(op.closest, c)))
 // akey(a): the string under which an address is remembered as queried
 //@ spec def akey(a krpc.NodeAddrPort) addrString = addrString(a.AddrPort.String())
 
@@ -233,11 +233,11 @@ package traversal
 //@   trusted
 //@   option noalloc
 //@ func (*dht/traversal.Operation).Stopped
-//@   trusted
-//@   option noalloc
+//@   requires nonnil: op != nil
+//@   ensures the-stopped-event: result == donechan(&op.stopped)
 //@ func (*dht/traversal.Operation).Stats
 //@   requires nonnil: op != nil
 //@   ensures the-counters-of-this-lookup: result == &op.stats
 //@ func (*dht/traversal.Operation).Closest
-//@   trusted
-//@   option noalloc
+//@   requires nonnil: op != nil
+//@   ensures the-result-set-of-this-lookup: result == &op.closest
